@@ -345,18 +345,22 @@ class Executor(object):
                 ty = self.world.schema[key[2:]]
             else:
                 ty = self.world.schema.get(key[2:].split('.')[-1])
+            # (only allocated addresses are constrained: what an array holds at an address nobody has allocated yet is
+            #  arbitrary - a lazily introduced initial array must not forbid a later fresh object from pointing at
+            #  another later fresh object)
+            live = z3.And(a > 0, a < nxt)
             if ty is not None and code_of(ty) == 'R':
-                out.append(z3.ForAll([a], z3.And(arr[a] >= 0, arr[a] < nxt)))
+                out.append(z3.ForAll([a], z3.Implies(live, z3.And(arr[a] >= 0, arr[a] < nxt))))
             elif rng == Val:
-                out.append(z3.ForAll([a], z3.Implies(Val.is_VRef(arr[a]), Val.addr(arr[a]) < nxt)))
+                out.append(z3.ForAll([a], z3.Implies(z3.And(live, Val.is_VRef(arr[a])), Val.addr(arr[a]) < nxt)))
         elif key == 'La.R':
-            out.append(z3.ForAll([a, i], z3.And(arr[a][i] >= 0, arr[a][i] < nxt)))
+            out.append(z3.ForAll([a, i], z3.Implies(z3.And(a > 0, a < nxt), z3.And(arr[a][i] >= 0, arr[a][i] < nxt))))
         elif key == 'La.V':
-            out.append(z3.ForAll([a, i], z3.Implies(Val.is_VRef(arr[a][i]), Val.addr(arr[a][i]) < nxt)))
+            out.append(z3.ForAll([a, i], z3.Implies(z3.And(a > 0, a < nxt, Val.is_VRef(arr[a][i])), Val.addr(arr[a][i]) < nxt)))
         elif key == 'Dv.R':
-            out.append(z3.ForAll([a, k], z3.And(arr[a][k] >= 0, arr[a][k] < nxt)))
+            out.append(z3.ForAll([a, k], z3.Implies(z3.And(a > 0, a < nxt), z3.And(arr[a][k] >= 0, arr[a][k] < nxt))))
         elif key == 'Dv.V':
-            out.append(z3.ForAll([a, k], z3.Implies(Val.is_VRef(arr[a][k]), Val.addr(arr[a][k]) < nxt)))
+            out.append(z3.ForAll([a, k], z3.Implies(z3.And(a > 0, a < nxt, Val.is_VRef(arr[a][k])), Val.addr(arr[a][k]) < nxt)))
         elif key.startswith('g.'):
             ty = self.world.globals_schema[key[2:]]
             if code_of(ty) == 'R':
